@@ -10,10 +10,18 @@ import sys
 from ._eam_potential import EAMPotential # noqa
 
 
+def _formatGridValue(value):
+  """The header declares the grid on which the file's functions are tabulated: six decimal places where
+  they give the value exactly, otherwise all the digits needed to do so."""
+  s = u"%f" % value
+  if float(s) != value:
+    s = u"%.16e" % value
+  return s
+
 def _writeHeader(outfile, nrho, drho, nr, dr, cutoff, title, atomicNumber, mass, latticeConstant, latticeType):
   print(title, file=outfile)
   print(u"%d %f %f %s" % (atomicNumber, mass, latticeConstant, latticeType), file=outfile)
-  print(u"%d %f %d %f %f" % (nrho, drho, nr, dr, cutoff), file=outfile)
+  print(u"%d %s %d %s %s" % (nrho, _formatGridValue(drho), nr, _formatGridValue(dr), _formatGridValue(cutoff)), file=outfile)
 
 def _writeValueBlock(outfile, values):
   numbertemplate = u" % 20.16e"
